@@ -157,6 +157,14 @@ func VH_order(which int, size int, isRepl int) {
 		verifAssert("no-diagnostic-no-flag", !utils.HadRuntimeError)
 	} else {
 		verifAssert("diagnostic-sets-flag", utils.HadRuntimeError)
+		if !orderFaulty && !anyCallee && which != 7 {
+			// the probes of this harness never fail, so the diagnostic is the node's own: an
+			// operator, call or index is applied to its operands once all of them have been
+			// evaluated — every operand exactly once, also on the way to an error. (Not asserted
+			// for a property write, whose target must be an object before there is anything to
+			// assign to: the pinned tree reports a non-object target before evaluating the value.)
+			verifAssert("every-operand-evaluated-before-the-operation-fails", next == m)
+		}
 	}
 	if which == 3 {
 		if !sawErr {
